@@ -147,6 +147,81 @@ func (*L2) Requires() []string               { return reqs["L2"] }
 func (x *L2) Fork(n int) []core.PipelineItem { return core.ForkSamePipelineItem(x, n) }
 func (*L2) Features() []string               { return []string{"f0", "f2"} }
 
+// types registered late, one by one, while the probe runs (the registry must show them to every later Summon), and two
+// different types that share a name
+type Z1 struct{ base }
+
+func (*Z1) Name() string                     { return "Z1" }
+func (*Z1) Provides() []string               { return []string{"zlate"} }
+func (*Z1) Requires() []string               { return nil }
+func (x *Z1) Fork(n int) []core.PipelineItem { return core.ForkSamePipelineItem(x, n) }
+
+type Z2 struct{ base }
+
+func (*Z2) Name() string                     { return "Z2" }
+func (*Z2) Provides() []string               { return []string{"zlate", "zlate2"} }
+func (*Z2) Requires() []string               { return nil }
+func (x *Z2) Fork(n int) []core.PipelineItem { return core.ForkSamePipelineItem(x, n) }
+
+type ZD1 struct{ base }
+
+func (*ZD1) Name() string                     { return "ZDup" }
+func (*ZD1) Provides() []string               { return []string{"zdup"} }
+func (*ZD1) Requires() []string               { return nil }
+func (x *ZD1) Fork(n int) []core.PipelineItem { return core.ForkSamePipelineItem(x, n) }
+
+type ZD2 struct{ base }
+
+func (*ZD2) Name() string                     { return "ZDup" }
+func (*ZD2) Provides() []string               { return []string{"zdup", "zdup2"} }
+func (*ZD2) Requires() []string               { return nil }
+func (x *ZD2) Fork(n int) []core.PipelineItem { return core.ForkSamePipelineItem(x, n) }
+
+// registryOracle states what Register/Summon promise, on the real global registry: Summon(key) gives one fresh instance of
+// every registered type that provides the entity `key`, in registration order, then the type registered last under the
+// name `key`; a registration is visible to every later Summon, whatever was summoned before
+func registryOracle() string {
+	show := func(items []core.PipelineItem) string {
+		var s []string
+		for _, it := range items {
+			s = append(s, fmt.Sprintf("%T", it))
+		}
+		return strings.Join(s, ",")
+	}
+	expect := func(key, want string) string {
+		if got := show(core.Registry.Summon(key)); got != want {
+			return fmt.Sprintf("Summon(%q) gives [%s], registered so far: [%s]", key, got, want)
+		}
+		return ""
+	}
+	steps := []struct {
+		reg  core.PipelineItem
+		want map[string]string
+	}{
+		{nil, map[string]string{"zlate": "", "zlate2": "", "Z1": "", "zdup2": ""}},
+		{&Z1{}, map[string]string{"zlate": "*main.Z1", "zlate2": "", "Z1": "*main.Z1"}},
+		{&Z2{}, map[string]string{"zlate": "*main.Z1,*main.Z2", "zlate2": "*main.Z2", "Z2": "*main.Z2", "Z1": "*main.Z1"}},
+		{&ZD1{}, map[string]string{"zdup": "*main.ZD1", "zdup2": "", "ZDup": "*main.ZD1"}},
+		{&ZD2{}, map[string]string{"zdup": "*main.ZD1,*main.ZD2", "zdup2": "*main.ZD2", "ZDup": "*main.ZD2", "zlate": "*main.Z1,*main.Z2"}},
+	}
+	for _, st := range steps {
+		if st.reg != nil {
+			core.Registry.Register(st.reg)
+		}
+		var keys []string
+		for k := range st.want {
+			keys = append(keys, k)
+		}
+		sort.Strings(keys)
+		for _, k := range keys {
+			if m := expect(k, st.want[k]); m != "" {
+				return m
+			}
+		}
+	}
+	return ""
+}
+
 func feats(it core.PipelineItem) []string {
 	if f, ok := it.(core.FeaturedPipelineItem); ok {
 		return f.Features()
@@ -165,7 +240,21 @@ func main() {
 	}
 	repo, _ := git.Init(memory.NewStorage(), nil)
 	entities := []string{"x0", "x1", "x2", "x3", "x4", "x5"}
+	registryMsg, registryDone := "", false
 	hv.RunOracle(func(cs int64, extra []string) (string, string, string, []string) {
+		if !registryDone {
+			// once per probe run, after the deployments of the first case have summoned from the registry
+			defer func() {
+				if !registryDone {
+					registryDone = true
+					registryMsg = registryOracle()
+				}
+			}()
+		} else if registryMsg != "" {
+			m := registryMsg
+			registryMsg = ""
+			return `{"registry":"late registrations Z1, Z2 (entity zlate), two types named ZDup"}`, "registry", m, nil
+		}
 		rng := rand.New(rand.NewSource(cs))
 		reqs = map[string][]string{}
 		names := []string{"P0", "P1", "P2", "P3", "P4", "P5", "P6", "P7", "P8", "P9", "PA", "PB", "L0", "L1", "L2"}
